@@ -284,7 +284,7 @@ theorem ainv_src (cfg : Cfg) (s : Src) (lazy : Bool) (head : Option Step)
   cases lazy with
   | true =>
     refine Or.inr ⟨rfl, rfl, rfl, hne, ?_⟩
-    simp [Bal, cnt]
+    simp [Bal, cnt, G.allocCore, G.allocFunctor]
   | false =>
     simp only [Bool.false_eq_true, ite_false]
     have hsp := startSrc_acct cfg s none
@@ -294,13 +294,13 @@ theorem ainv_src (cfg : Cfg) (s : Src) (lazy : Bool) (head : Option Step)
       rw [hgo] at hsp
       simp only [Bal, hsp, cnt_allocFunctor, cnt_allocCore]
       rw [srcCores_eq]
-      cases hu : (s == Src.unit) <;> simp [cnt]
+      cases hu : (s == Src.unit) <;> simp [cnt, G.allocCore, G.allocFunctor]
     · intro w inh g' hw
       rw [hw] at hsp
       obtain ⟨a1, a2, a3, a4, a5⟩ := hsp
       refine ⟨?_, a5⟩
       simp only [Bal, a1, cnt_allocFunctor, cnt_allocCore, a3, a4]
-      simp [cnt]
+      simp [cnt, G.allocCore, G.allocFunctor]
       omega
 
 /-- **the accounting invariant holds after every list of client events** (for well-formed programs) -/
